@@ -584,11 +584,15 @@ def run_tab_loop(case):
 
     algo, eps = case["algo"], case["epsilon"]
     cfg = dict(script=[[4, "T"], [6, "U"], [3, "T"]] if eps else
-               [[9, "T"], [14, "U"], [7, "T"]], seed=case["seed"],
-               total_timesteps=80 if eps else 800, snapshots=False, logger=False,
+               [[9, "T"], [1, "T"], [1, "T"], [14, "U"], [1, "T"], [1, "U"],
+                [7, "T"], [1, "T"]],
+               seed=case["seed"],
+               total_timesteps=80 if eps else (2400 if algo == "double_q_learning" else 800),
+               snapshots=False, logger=False,
                # greedy runs: frequent self-transitions and long episodes (the
                # same row is updated and acted on again)
                self_loop_p=0.0 if eps else 0.35,
+               fixed_start_p=0.0 if eps else 0.7,
                n_states=4,
                n_actions=3, epsilon=eps, gamma=0.9, learning_rate=0.3)
     run = make_run(algo, cfg)
@@ -616,12 +620,26 @@ def run_tab_loop(case):
             return out
 
         patches.append((mod, upd, update))
+    if algo == "double_q_learning":
+        # two tables: the behaviour estimates are their sum; one update returns
+        # the first table it was given, the other one stays as it is
+        orig_dql = mod._dql_update
+
+        def dql(key, qa, qb, *a, **kw):
+            out = orig_dql(key, qa, qb, *a, **kw)
+            tr.ev("table", q=np.asarray(out) + np.asarray(qb))
+            return out
+
+        patches.append((mod, "_dql_update", dql))
     with rebound(patches):
         ok, _ = guarded(res, f"C13/raises/train_{algo}", run.call)
     if not ok:
         return res
     last_eg = None
     current = np.asarray(run.kwargs["q_table"]).copy() if upd is not None else None
+    if algo == "double_q_learning":
+        current = np.asarray(run.kwargs["q_table1"]) + np.asarray(
+            run.kwargs["q_table2"])
     k = nongreedy = 0
     for e in tr.events:
         if e["k"] == "table":
